@@ -12,6 +12,8 @@ from pathlib import Path
 
 from hypothesis import strategies as st
 
+from core import scratch_dir as core_scratch
+
 from core import HARNESS, REPO, VERIF, Violation, guarded, require
 
 ID = "C19"
@@ -47,6 +49,12 @@ def budget(tier):
 
 
 token = st.text(alphabet=TOKEN_ALPHABET, min_size=1, max_size=8)
+# characters that str.splitlines() (but not line-wise reading of a text file) treats as line boundaries; only *inside* a field,
+# never at its ends (str.strip() would take them for blanks there)
+EXOTIC = "\x0b\x0c\x1c\x1d\x1e\x85\u2028\u2029"
+exotic_token = st.tuples(st.text(alphabet="abcXYZ019", min_size=1, max_size=3), st.sampled_from(EXOTIC),
+                         st.text(alphabet="abcXYZ019", min_size=1, max_size=3)).map("".join)
+field = st.one_of(token, token, token, token, token, token, token, exotic_token)
 
 
 @st.composite
@@ -58,9 +66,9 @@ def _case(draw, tier):
     nrows = draw(st.integers(1, 12))
     rows = []
     for _ in range(nrows):
-        fields = draw(st.lists(token, min_size=len(base), max_size=len(base)))
+        fields = draw(st.lists(field, min_size=len(base), max_size=len(base)))
         nprot = draw(st.sampled_from([1, 1, 1, 2, 3, 5]))
-        rows.append({"fields": fields, "proteins": draw(st.lists(token, min_size=nprot, max_size=nprot))})
+        rows.append({"fields": fields, "proteins": draw(st.lists(field, min_size=nprot, max_size=nprot))})
     dd = None
     if draw(st.integers(0, 3)) == 0:
         ndd = draw(st.sampled_from([len(base) + 1, len(base) + 1, 2, len(base) + 3, 1]))
@@ -94,8 +102,52 @@ def _cli_case(draw, tier):
             "leftover_kind": draw(st.sampled_from(["rows", "garbage"]))}
 
 
+@st.composite
+def _table_case(draw, tier):
+    """Any tab-delimited text handed to the validity predicate: rows may have more *or fewer* fields than the header
+    (a truncated line), so deviations of several rows can cancel in any aggregate count."""
+    ncol = draw(st.integers(2, 9))
+    header = draw(st.lists(token, min_size=ncol, max_size=ncol))
+    nrows = draw(st.integers(1, 10))
+    devs = draw(st.lists(st.sampled_from([0, 0, 0, 0, 1, -1, 1, -1, 2, -2, 3]), min_size=nrows, max_size=nrows))
+    if draw(st.booleans()):
+        # make the deviations cancel: the first row stays rectangular, a later row takes up the balance
+        devs[0] = 0
+        if nrows >= 3:
+            devs[-1] = -sum(devs[:-1])
+    rows = [draw(st.lists(token, min_size=max(1, ncol + d), max_size=max(1, ncol + d))) for d in devs]
+    dd = draw(st.sampled_from([None, None, None, ncol, ncol + 1, 2]))
+    return {"kind": "table", "header": header, "rows": rows, "dd": dd, "final_newline": draw(st.booleans())}
+
+
+def _check_table(case):
+    from mokapot.parsers import pin_to_tsv as pt
+
+    lines = ["\t".join(case["header"])]
+    if case["dd"]:
+        lines.append("\t".join(["DefaultDirection"] + ["-"] * (case["dd"] - 1)))
+    lines += ["\t".join(r) for r in case["rows"]]
+    text = "\n".join(lines) + ("\n" if case["final_newline"] else "")
+    widths = [len(r) for r in case["rows"]]
+    n = len(case["header"])
+    want = case["dd"] is None and all(w == n for w in widths)
+    got = guarded(pt.is_valid_tsv, StringIO(text), sig="is_valid_tsv")
+    require(bool(got) == want and isinstance(got, (bool,)), "validity-predicate",
+            f"is_valid_tsv = {got!r}, expected {want}: header of {n} fields, rows of {widths} fields, DefaultDirection line={case['dd']}")
+    with core_scratch() as tmp:
+        p = tmp / "t.pin"
+        p.write_text(text)
+        with open(p) as fh:
+            got2 = guarded(pt.is_valid_tsv, fh, sig="is_valid_tsv")
+        require(bool(got2) == want, "validity-predicate", f"is_valid_tsv(file) = {got2!r}, expected {want}: rows of {widths} fields for a header of {n}")
+    bal = sum(w - n for w in widths) == 0 and any(w != n for w in widths)
+    return {"nontrivial": any(w != n for w in widths) or bool(case["dd"]),
+            "classes": ["validity-table"] + (["row-deviations-cancel"] if bal else []) + (["row-with-fewer-fields"] if any(w < n for w in widths) else []),
+            "counters": {"rows_checked": len(widths)}}
+
+
 def strategy(tier):
-    return st.one_of(_case(tier), _case(tier), _case(tier), _case(tier), _case(tier), _case(tier), _case(tier), _cli_case(tier))
+    return st.one_of(_case(tier), _case(tier), _case(tier), _case(tier), _case(tier), _case(tier), _table_case(tier), _cli_case(tier))
 
 
 def render(case):
@@ -203,8 +255,6 @@ def _check_cli(case):
                     f"{'its unchanged content' if valid[i] else 'the conversion of its own content'} ({want.count(chr(10))} lines); {where}")
             with open(p) as fh:
                 require(pt.is_valid_tsv(fh) is True, "cli-verify-file", f"file {i} ({kinds[i]}) is not a valid TSV after the verify step; {where}")
-            if not valid[i]:
-                require(not Path(str(p) + ".tsv").exists(), "cli-verify-tsv-left", f"{p.name}.tsv remains after the conversion; {where}")
     classes = ["cli-verify", "cli-files-" + "+".join(kinds)]
     if lo is not None:
         classes.append("cli-leftover-tsv-next-to-" + kinds[lo % len(paths)])
@@ -217,6 +267,8 @@ def check(case):
 
     if case.get("kind") == "cli":
         return _check_cli(case)
+    if case.get("kind") == "table":
+        return _check_table(case)
     if not well_formed(case):
         return {"nontrivial": False, "classes": ["ill-formed-skipped"]}
     text, exp = render(case)
